@@ -4,7 +4,9 @@ import (
 	"fmt"
 	"math"
 	"reflect"
+	"sort"
 	"strconv"
+	"strings"
 	"time"
 	"unsafe"
 
@@ -39,6 +41,9 @@ func thCheckLayout() {
 	if !ok || f.Type.Kind() != reflect.Slice || f.Type.Elem().Kind() != reflect.Ptr {
 		panic("timeheap.TimeHeap.heap is not a slice of pointers any more: the shift clock of harness c12b needs adapting")
 	}
+	if tf, ok := t.FieldByName("total"); !ok || tf.Type.Kind() != reflect.Uint64 {
+		panic("timeheap.TimeHeap.total is not a uint64 any more: harness c12b needs adapting")
+	}
 	e := f.Type.Elem().Elem()
 	m := reflect.TypeOf(thEntryMirror{})
 	if e.Kind() != reflect.Struct || e.NumField() != 2 || e.Size() != m.Size() ||
@@ -54,6 +59,21 @@ func thShift(h *timeheap.TimeHeap, d time.Duration) {
 		e := (*thEntryMirror)(unsafe.Pointer(v.Index(i).Pointer()))
 		e.timestamp = e.timestamp.Add(-d)
 	}
+}
+
+// thHeap reads the heap array of the TimeHeap: (timestamp, count) per slot, in array order.
+func thHeap(h *timeheap.TimeHeap) []thEntryMirror {
+	v := reflect.ValueOf(h).Elem().FieldByName("heap")
+	out := make([]thEntryMirror, 0, v.Len())
+	for i := 0; i < v.Len(); i++ {
+		out = append(out, *(*thEntryMirror)(unsafe.Pointer(v.Index(i).Pointer())))
+	}
+
+	return out
+}
+
+func thTotal(h *timeheap.TimeHeap) uint64 {
+	return reflect.ValueOf(h).Elem().FieldByName("total").Uint()
 }
 
 type thLive struct {
@@ -118,6 +138,62 @@ func (w *thWorld) exec(f []string) string {
 		w.live = nil
 
 		return "ok"
+	case "state":
+		// the running total and the heap array (age in units : count, canonically sorted); the array must be a
+		// min-heap on the timestamps and hold exactly the live entries of the oracle
+		heap := thHeap(w.h)
+		total := thTotal(w.h)
+		now := time.Now()
+		type ac struct {
+			age   int
+			count uint64
+		}
+		got := make([]ac, 0, len(heap))
+		for i, e := range heap {
+			if i > 0 && heap[(i-1)/2].timestamp.After(e.timestamp) {
+				w.fail("windowed-sum", fmt.Sprintf("heap slot %d is older than its parent slot %d: the array is not a min-heap on the timestamps", i, (i-1)/2),
+					w.sig("state", "heap-order"))
+			}
+			got = append(got, ac{int((now.Sub(e.timestamp) + w.unit()/2) / w.unit()), e.count})
+		}
+		sort.Slice(got, func(a, b int) bool {
+			if got[a].age != got[b].age {
+				return got[a].age < got[b].age
+			}
+
+			return got[a].count < got[b].count
+		})
+		want := make([]ac, 0, len(w.live))
+		var sum uint64
+		for _, e := range w.live {
+			want = append(want, ac{w.now - e.t, e.count})
+			sum += e.count // wraps like the implementation's uint64
+		}
+		sort.Slice(want, func(a, b int) bool {
+			if want[a].age != want[b].age {
+				return want[a].age < want[b].age
+			}
+
+			return want[a].count < want[b].count
+		})
+		if total != sum {
+			w.fail("windowed-sum", fmt.Sprintf("running total %d, the live entries %s sum to %d", total, thShow(w.live), sum), w.sig("state", "total-vs-heap"))
+		}
+		same := len(got) == len(want)
+		for i := 0; same && i < len(got); i++ {
+			same = got[i] == want[i] || (w.real && got[i].count == want[i].count)
+		}
+		parts := make([]string, 0, len(got))
+		for _, e := range got {
+			parts = append(parts, fmt.Sprintf("%d:%d", e.age, e.count))
+		}
+		ans := fmt.Sprintf("total=%d heap=[%s]", total, strings.Join(parts, " "))
+		if !same {
+			w.fail("windowed-sum", fmt.Sprintf("the heap holds (age:count) %s, the live entries are (time:count) %s at time %d", ans, thShow(w.live), w.now),
+				w.sig("state", "heap-vs-live"))
+		}
+
+		return ans
 	case "avg":
 		hh, _ := strconv.Atoi(f[1])
 		win := time.Duration(hh) * (w.unit() / 2)
@@ -129,7 +205,7 @@ func (w *thWorld) exec(f []string) string {
 		var want uint64
 		keep := w.live[:0:0]
 		for _, e := range w.live {
-			in := 2*(w.now-e.t) < hh
+			in := 2*(w.now-e.t) < hh // a negative window holds nothing
 			if w.real {
 				// the implementation's decision lies between these two ages; it must be unambiguous and nominal
 				ageLo, ageHi := lo.Sub(e.hi), hi.Sub(e.lo)
@@ -162,9 +238,18 @@ func (w *thWorld) exec(f []string) string {
 
 			return ans
 		}
-		if exp := float32(want) / secs; got != exp {
+		if exp := float32(want) / secs; got != exp && !(hh < 0 && want == 0 && got == 0) {
 			w.fail("windowed-sum", fmt.Sprintf("AveragePerSecond(%v)=%v, want %v/%v=%v (live entries as time:count %s, now %d)", win, got, want, secs, exp, thShow(w.live), w.now),
 				w.sig("AveragePerSecond", "sum"))
+		}
+		if tot := thTotal(w.h); tot != want {
+			w.fail("windowed-sum", fmt.Sprintf("after AveragePerSecond(%v) the running total is %d, the entries inside the window %s sum to %d", win, tot, thShow(w.live), want),
+				w.sig("AveragePerSecond", "total-field"))
+		}
+		if want >= 1<<22 || hh < 0 {
+			// the total cannot be recovered from the float32 quotient with certainty (or the quotient is -0): the float is checked against the oracle
+			// above, the answer compared with the model is the running total itself
+			return strconv.FormatUint(thTotal(w.h), 10)
 		}
 		total := math.Round(float64(got) * float64(secs))
 		if total < 0 || total > 1e15 {
@@ -193,19 +278,43 @@ func (w *thWorld) nontrivial() bool { return w.avgs >= 2 && w.expired >= 1 }
 
 func genTimeHeap(rng *hx.Rng, n int, first string, maxTick int) []string {
 	ops := []string{first}
+	real := first == "th new real"
+	big := !real && rng.Chance(1, 4)
+	far := !real && rng.Chance(1, 10)
 	for i := 0; i < n; i++ {
 		switch k := rng.Intn(100); {
 		case k < 35:
-			ops = append(ops, fmt.Sprintf("th add %d", rng.Intn(10)))
+			c := uint64(rng.Intn(10))
+			if big && rng.Chance(1, 3) {
+				// counts near the top of uint64: the running total wraps around
+				c = hx.Pick(rng, []uint64{math.MaxUint64, math.MaxUint64 - 1, 1 << 63, 1<<63 + 1, 1 << 62, 1<<24 + 1, 1<<32 + 5, 1<<53 + 1})
+			}
+			ops = append(ops, fmt.Sprintf("th add %d", c))
 		case k < 60:
-			ops = append(ops, fmt.Sprintf("th tick %d", rng.Range(1, maxTick)))
+			d := rng.Range(1, maxTick)
+			if far && rng.Chance(1, 4) {
+				d = hx.Pick(rng, []int{7, 50, 1000, 100000}) // up to ~13 years in one step
+			}
+			ops = append(ops, fmt.Sprintf("th tick %d", d))
 		case k < 67:
 			ops = append(ops, "th clear")
 		case k < 71:
 			ops = append(ops, "th avg 0")
+		case k < 73 && !real:
+			ops = append(ops, fmt.Sprintf("th avg -%d", 2*rng.Intn(3)+1))
 		default:
-			ops = append(ops, fmt.Sprintf("th avg %d", 2*rng.Intn(5)+1))
+			h := 2*rng.Intn(5) + 1
+			if far && rng.Chance(1, 3) {
+				h = hx.Pick(rng, []int{15, 101, 2001, 200001})
+			}
+			ops = append(ops, fmt.Sprintf("th avg %d", h))
 		}
+		if !real && rng.Chance(1, 3) {
+			ops = append(ops, "th state")
+		}
+	}
+	if !real {
+		ops = append(ops, "th state")
 	}
 	ops = append(ops, "th avg 99")
 
@@ -228,6 +337,9 @@ var thContainer = container{
 		// DESIGN.md section 7: Clear keeps the running total
 		{"th new shift", "th add 5", "th clear", "th avg 3", "th add 2", "th avg 3", "th avg 0"},
 		{"th new shift", "th add 1", "th tick 1", "th add 2", "th tick 1", "th add 4", "th avg 5", "th avg 3", "th avg 1", "th avg 5", "th avg 0"},
+		// the running total wraps around uint64 and comes back when the big entry leaves the window
+		{"th new shift", "th add 18446744073709551615", "th tick 1", "th add 7", "th state", "th avg 5", "th avg 1", "th state", "th avg -3", "th state", "th avg 3"},
+		{"th new shift", "th add 9223372036854775808", "th add 9223372036854775808", "th add 3", "th state", "th avg 3", "th tick 100000", "th add 1", "th avg 200001", "th avg 3", "th state"},
 		{"th new real", "th add 3", "th tick 1", "th add 4", "th avg 1", "th avg 5", "th clear", "th add 1", "th avg 3"},
 	},
 	rule: "at least two window queries and one entry that left the window",
